@@ -1,33 +1,37 @@
-(** * Model of the collective force of one simulation step (C05).
+(** * Model of the collective force of one simulation step (C05), on the nb-bunch grid.
 
     What is mirrored here (as the code is):
-    - WakePotentialMap::update (src/SM/WakePotentialMap.cpp:34-50): the first [nb*n] values
-      returned by ElectricField::wakePotential() are copied over the kick map's offset vector,
-      then updateSM() turns them into the interpolation table;
-    - RFKickMap::_calcKick, linear branch (src/SM/RFKickMap.cpp:60-68) at the synchronous phase
-      with unit amplitude: offset[x] = tan(angle)*(xcenter - x), a float product, written for
-      x < n only (bunch 0's block; the rest of the vector keeps its initial zeros);
+    - WakePotentialMap::update (src/SM/WakePotentialMap.cpp): the statements of the GENERATED
+      program (Gen/Gen_WakeUpdate.v, executed by Model/WakeUpdate.v): the [nb*n] values returned by
+      ElectricField::wakePotential() are copied over the kick map's offset vector, then
+      KickMap::updateSM turns every entry into its interpolation row ([wake_offsets], [wake_table]);
+    - RFKickMap::_calcKick, linear branch (src/SM/RFKickMap.cpp) at the synchronous phase with
+      unit amplitude: offset[b*n+x] = tan(angle)*(xcenter - x), two float operations, written
+      for the block of EVERY bunch (repo fix 072b56b; the pinned tree filled bunch 0's block only);
+      its table is KickMap::updateSM of that vector (the same generated loops);
+    - KickMap::apply, kick along y (wake kick and RF kick): the table block bunch [b] reads is
+      selected by min(b,_lastbunch); table index, source cell, bound and data index are the
+      GENERATED functions of Gen/Gen_KickIndex.v and [_lastbunch] is the GENERATED initialiser of
+      the KickMap constructor (Gen/Gen_WakeUpdate.v) - nothing of the block rule is written by hand;
     - the maps of one step in the order main() applies them (Gen/Gen_StepOrder.v).
-    The kick maps themselves are Model/Kick.v.  The Fokker-Planck map is not modelled in this
+    The drift is the kick along x of Model/Kick.v.  The Fokker-Planck map is not modelled in this
     family: it is a parameter [fp] of the step interpreter (the statements proved about the
     energy kicks hold whatever it computes). *)
 From Coq Require Import List ZArith QArith Qcanon Lia Bool.
 From Inovesa Require Import Base.FieldKit Base.Float32 Gen.Gen_Coeffs Model.Kick
-  Model.StepKinds Gen.Gen_StepOrder.
+  Model.StepKinds Gen.Gen_StepOrder Model.RunKinds Gen.Gen_WakeUpdate Gen.Gen_Identity
+  Gen.Gen_KickIndex Model.Copy Model.WakeUpdate.
 Import ListNotations.
 Local Open Scope Z_scope.
 
 (** ** offsets *)
 
-(** std::copy_n(_field->wakePotential(), PhaseSpace::nb*_xsize, _offset.data()) *)
-Definition wake_update (nb n : Z) (wp old : Z -> Qc) (i : Z) : Qc :=
-  if ((0 <=? i) && (i <? nb * n))%bool then wp i else old i.
-
-(** _offset[x] = std::tan(_angle)*(xcenter-x)  (+ 0, * 1) for x < _xsize; zero-initialised beyond.
-    Two float operations: the difference (exact on an unshifted grid, where xcenter = (n-1)/2; rounded
-    when --PhaseSpaceShiftX makes the zero bin a non-dyadic float) and the product. *)
-Definition rf_offsets (n : Z) (t xc : Qc) (i : Z) : Qc :=
-  if ((0 <=? i) && (i <? n))%bool then rnd32 (t * rnd32 (xc - Qcz i))%Qc else 0%Qc.
+(** for (n < nb) for (x < _xsize) _offset[n*_xsize+x] = std::tan(_angle)*(xcenter-x)  (+ 0, * 1);
+    zero-initialised beyond.  Two float operations: the difference (exact on an unshifted grid,
+    where xcenter = (n-1)/2; rounded when --PhaseSpaceShiftX makes the zero bin a non-dyadic
+    float) and the product. *)
+Definition rf_offsets (nb n : Z) (t xc : Qc) (i : Z) : Qc :=
+  if ((0 <=? i) && (i <? nb * n))%bool then rnd32 (t * rnd32 (xc - Qcz (i mod n)))%Qc else 0%Qc.
 
 (** The displacement a table row written by updateSM realises for the stored offset [o]:
     the code splits the *float* sum n/2 + o, so this is what the stencil's first moment is. *)
@@ -45,25 +49,63 @@ Definition rowD (n : Z) (D : Z -> Qc) (b x : Z) (y : Z) : Qc :=
 Definition colD (n : Z) (D : Z -> Qc) (b y : Z) (x : Z) : Qc :=
   if in_range n x then D (didx n b x y) else 0%Qc.
 
-(** grid-level kicks as total functions (zero outside the nb*n*n cells); the list front-end
-    below computes exactly these ([getQ_kick_y_list] in Proofs/ForceP.v) *)
+(** ** KickMap::apply, y branch, as the source has it now: one output cell.  [H] is the map's
+    table [_hinfo]; geometry ([_meshsize_kd], [_meshsize_pd]) and [_lastbunch] from the generated
+    constructors; the four index expressions from the generated loop body. *)
+Definition ykick_cell (n nb it : Z) (H : Z -> Z * Qc) (D : Z -> Qc) (b x y : Z) : Qc :=
+  let kd := wk_kd n nb in let pd := wk_pd n nb in let lb := km_lastbunch nb in
+  qsum (map (fun j =>
+    let h := H (ky_hinfo kd pd it lb b x y j) in
+    let s := wrap32 (ky_src kd pd it lb b x y j (fst h)) in
+    if s <? ky_bound kd pd it lb b x y j then (D (ky_read kd pd it lb b x y j s) * snd h)%Qc else 0%Qc)
+    (zrange it)).
+
+(** the whole grid: total function of the flat cell index, zero outside the nb*n*n cells *)
+Definition gykick (n nb it : Z) (H : Z -> Z * Qc) (D : Z -> Qc) (i : Z) : Qc :=
+  if in_range (nb * n * n) i then ykick_cell n nb it H D (cell_b n i) (cell_x n i) (cell_y n i) else 0%Qc.
+
+(** the table of the RF kick map: KickMap::updateSM (generated loops) over its offset vector *)
+Definition rf_table (n nb it : Z) (t xc : Qc) : Z -> Z * Qc :=
+  updateSM_loop (wk_kd n nb) it (wk_offset_size n nb) (rf_offsets nb n t xc) (km_hinfo km_init).
+
+(** wake kick after WakePotentialMap::update() with the wake potentials [wp]; RF kick *)
+Definition gkick_wake (n nb it : Z) (wp : Z -> Qc) : (Z -> Qc) -> Z -> Qc :=
+  gykick n nb it (wake_table n nb it wp).
+Definition gkick_rf (n nb it : Z) (t xc : Qc) : (Z -> Qc) -> Z -> Qc :=
+  gykick n nb it (rf_table n nb it t xc).
+
+(** grid-level kicks for an arbitrary offset vector on the closed-form table of Model/Kick.v
+    (drift; energy kicks with offsets given as such); the list front-end below computes exactly
+    these ([getQ_kick_y_list] in Proofs/StepP.v) *)
 Definition gkick_y (n nb it : Z) (offs D : Z -> Qc) (i : Z) : Qc :=
   if in_range (nb * n * n) i then apply_y n nb it (updateSM n it offs) D i else 0%Qc.
 Definition gkick_x (n nb it : Z) (offs D : Z -> Qc) (i : Z) : Qc :=
   if in_range (nb * n * n) i then apply_x n nb it (updateSM n it offs) D i else 0%Qc.
 
-(** the energy kicks at the head of a step order, applied to one row with per-map offsets *)
+(** the energy kicks at the head of a step order *)
 Fixpoint ykick_prefix (l : list smap) : list smap :=
   match l with
   | m :: r => if is_ykick m then m :: ykick_prefix r else []
   | [] => []
   end.
 
+(** ... applied to one row with per-map offsets *)
 Definition row_kicks (n it : Z) (off : smap -> Qc) (ks : list smap) (r : Z -> Qc) : Z -> Qc :=
   fold_left (fun acc m => krow n it (off m) acc) ks r.
 
-(** ** whole-grid step interpreter (lists; what the extracted driver runs) *)
+(** ... applied to the grid as the code applies them *)
+Definition energy_kick (n nb it : Z) (wp : Z -> Qc) (t xc : Qc) (m : smap) (D : Z -> Qc) : Z -> Qc :=
+  match m with
+  | MWake => gkick_wake n nb it wp D
+  | MRF => gkick_rf n nb it t xc D
+  | _ => D
+  end.
+Definition energy_kicks (n nb it : Z) (wp : Z -> Qc) (t xc : Qc) (ks : list smap) (D : Z -> Qc) : Z -> Qc :=
+  fold_left (fun acc m => energy_kick n nb it wp t xc m acc) ks D.
 
+(** ** whole-grid step interpreters (lists; what the extracted driver runs) *)
+
+(** (a) offsets given as such, closed-form tables of Model/Kick.v *)
 Definition apply_map (n nb it : Z) (wo rfo dro : list Qc) (fp : list Qc -> list Qc)
            (m : smap) (data : list Qc) : list Qc :=
   match m with
@@ -82,26 +124,54 @@ Fixpoint run_maps (n nb it : Z) (wo rfo dro : list Qc) (fp : list Qc -> list Qc)
               d :: run_maps n nb it wo rfo dro fp r d
   end.
 
-Definition wake_offsets_list (nb n : Z) (wp : list Qc) : list Qc :=
-  map (wake_update nb n (getQ wp) (fun _ => 0%Qc)) (zrange (nb * n)).
+(** (b) the step as the code runs it: wake potentials in, tables from the generated update()
+    and updateSM loops, block selection of the generated apply().  The tables are built once per
+    map application (as update() does), not once per cell. *)
+Definition ykick_list (n nb it : Z) (H : Z -> Z * Qc) (data : list Qc) : list Qc :=
+  map (gykick n nb it H (getQ data)) (zrange (nb * n * n)).
+
+Definition apply_map_code (n nb it : Z) (wp : list Qc) (t xc : Qc) (dro : list Qc)
+           (fp : list Qc -> list Qc) (m : smap) (data : list Qc) : list Qc :=
+  match m with
+  | MWake => let H := wake_table n nb it (getQ wp) in ykick_list n nb it H data
+  | MRF => let H := rf_table n nb it t xc in ykick_list n nb it H data
+  | MDrift => kick_x_list n nb it dro data
+  | MFP => fp data
+  end.
+
+Fixpoint run_maps_code (n nb it : Z) (wp : list Qc) (t xc : Qc) (dro : list Qc)
+         (fp : list Qc -> list Qc) (order : list smap) (data : list Qc) : list (list Qc) :=
+  match order with
+  | [] => []
+  | m :: r => let d := apply_map_code n nb it wp t xc dro fp m data in
+              d :: run_maps_code n nb it wp t xc dro fp r d
+  end.
+
+(** the offset vectors and the table indices the two energy kick maps hold (all nb blocks) *)
+Definition wake_offsets_list (nb n it : Z) (wp : list Qc) : list Qc :=
+  let o := wake_offsets n nb it (getQ wp) in map o (zrange (nb * n)).
 Definition rf_offsets_list (nb n : Z) (t xc : Qc) : list Qc :=
-  map (rf_offsets n t xc) (zrange (nb * n)).
+  map (rf_offsets nb n t xc) (zrange (nb * n)).
+Definition wake_table_idx_list (nb n it : Z) (wp : list Qc) : list Z :=
+  let H := wake_table n nb it (getQ wp) in map (fun k => fst (H k)) (zrange (nb * n * it)).
+Definition rf_table_idx_list (nb n it : Z) (t xc : Qc) : list Z :=
+  let H := rf_table n nb it t xc in map (fun k => fst (H k)) (zrange (nb * n * it)).
 
 (** one step in the generated order, the Fokker-Planck map left out ([fp] = identity marks the
     place; the driver compares the grids before it) *)
 Definition step_grids (n nb it : Z) (wp : list Qc) (t xc : Qc) (dro : list Qc) (data : list Qc)
   : list (list Qc) :=
-  run_maps n nb it (wake_offsets_list nb n wp) (rf_offsets_list nb n t xc) dro (fun d => d)
-           step_order data.
+  run_maps_code n nb it wp t xc dro (fun d => d) step_order data.
 
 (** ** row moments and the predicted change of the mean energy index (spec side) *)
 Definition rowQ (n : Z) (data : list Qc) (b x : Z) (y : Z) : Qc := getQ data (didx n b x y).
 Definition m0_list (n : Z) (r : Z -> Qc) : Qc := qsum (map r (zrange n)).
 Definition m1_list (n : Z) (r : Z -> Qc) : Qc := qsum (map (fun y => (Qcz y * r y)%Qc) (zrange n)).
 
-(** per (bunch,row): minus the sum of the effective offsets of the energy kicks *)
+(** per (bunch,row) i = b*n+x: minus the sum of the effective offsets of the energy kicks, the
+    wake one from bunch b's own wake potential entry *)
 Definition predicted_shift (n nb : Z) (wp : list Qc) (t xc : Qc) (i : Z) : Qc :=
-  (- (eff_off n (wake_update nb n (getQ wp) (fun _ => 0%Qc) i) + eff_off n (rf_offsets n t xc i)))%Qc.
+  (- (eff_off n (getQ wp i) + eff_off n (rf_offsets nb n t xc i)))%Qc.
 Definition predicted_list (n nb : Z) (wp : list Qc) (t xc : Qc) : list Qc :=
   map (predicted_shift n nb wp t xc) (zrange (nb * n)).
 Definition moments_list (n nb : Z) (data : list Qc) : list (Qc * Qc) :=
